@@ -2665,6 +2665,15 @@ KERNELS = [
            outside=["PPT record walk (_iter_records / SlideListWithText) on bytes, pptx slide order / relationships / "
                     "zip plumbing, shapes without offsets (layout inheritance)"],
            timeout={"quick": 100, "thorough": 1100}),
+    # "content of removed markup never appears in the full text" is the subject of C17; its kernel
+    # (same harness function) is run here as well so that C02 sees breaks of that clause
+    Kernel("K7", "removed HTML markup: content never appears, nothing else is lost (shared with C17/K1)",
+           lambda ctx: __import__("vf.props.c17", fromlist=["x"]).k1(ctx),
+           targets=lambda: __import__("vf.props.c17", fromlist=["x"])._targets(),
+           parts=lambda tier: __import__("vf.props.c17", fromlist=["x"])._parts(tier),
+           symbolic=["tag name of every inner start/end/self-closing tag of the removed element"],
+           choices=["removable element", "inner items", "stray end tags"], core=False,
+           timeout={"quick": 280, "thorough": 2400}),
 ]
 
 META = {
